@@ -19,12 +19,39 @@ Proof.
   destruct (m_conn m =? c); simpl; [rewrite H|rewrite IH]; reflexivity.
 Qed.
 
+(* the payload kinds and the byte count each occupies on the wire *)
+Definition pay_size (p : payload) : Z :=
+  match p with
+  | PData _ len => len
+  | PFailed _ _ => SZ_FAILED_MESSAGE
+  | PClient false _ _ _ _ _ _ => SZ_CLIENT_INFO
+  | PClient true _ _ _ _ _ _ => SZ_CLIENT_CLOSED
+  | PTiming _ _ => SZ_TIMING_MESSAGE
+  | PTraffic _ _ _ _ => SZ_MESSAGE_TRAFFIC
+  | PActive _ _ => SZ_ACTIVE_CLIENTS
+  | PLog _ => SZ_RTMA_LOG
+  end.
+
+(* the header declares exactly the size of the payload that follows it *)
+Definition sized (h : hdr) (p : payload) : Prop := pay_size p = h_nbytes h.
+
+Lemma sized_mgr t sz dst pl : pay_size pl = sz -> sized (mgr_hdr t sz dst) pl.
+Proof. intros H. exact H. Qed.
+
+Lemma mod_send_hdr c h p s :
+  match mod_send c h p s with Ok r _ => h_nbytes (snd r) = h_nbytes h | Crash _ _ => True end.
+Proof.
+  unfold mod_send, bind, get, set_mod, modify, ret. cbv zeta.
+  destruct (sendall c _ _) as [[| |] s2|e s2]; simpl; auto.
+  destruct (sendall c _ s2) as [r2 s3|e s3]; simpl; auto.
+Qed.
+
 Section Generic.
 Variable cfg : config.
 Variable FUEL : nat.
 Variable I : mstate -> Prop.
 Hypothesis Hview : forall s s', view s' = view s -> I s -> I s'.
-Hypothesis Hsend : forall c h p, pres I (mod_send c h p).
+Hypothesis Hsend : forall c h p, sized h p -> pres I (mod_send c h p).
 Hypothesis Hclose : forall c, pres I (set_mod c mm_close).
 Hypothesis Haccept : forall s, I s -> I (with_uid (with_mods s (mods s ++ [new_module (next_uid s + 1)])) (next_uid s + 1)).
 Hypothesis Hfault : forall c n s, I s -> (forall k, flookup c (faults s) = Some k -> 0 < k) ->
@@ -41,27 +68,49 @@ Proof.
   intros H. unfold set_mod. apply pres_view. intros s. unfold view. simpl. rewrite map_mview_upd; auto.
 Qed.
 
+(* an operation that returns a header: the invariant, and the header still declares p's size *)
+Definition presH (p : payload) (m : M hdr) : Prop :=
+  hoare I m (fun hh' s => I s /\ sized hh' p) (fun _ => I).
+
+Lemma presH_bind {B} p (m : M hdr) (k : hdr -> M B) :
+  presH p m -> (forall hh', sized hh' p -> pres I (k hh')) -> pres I (bind m k).
+Proof.
+  intros Hm Hk s Hs. unfold bind. specialize (Hm s Hs). destruct (m s) as [hh' s'|e s']; [|exact Hm].
+  destruct Hm as [Hi Hz]. exact (Hk hh' Hz s' Hi).
+Qed.
+
+Lemma presH_ret p hh : sized hh p -> presH p (ret hh).
+Proof. intros Hz s Hs. simpl. auto. Qed.
+
+Lemma presH_seq {A} p (m : M A) (k : M hdr) : pres I m -> presH p k -> presH p (bind m (fun _ => k)).
+Proof.
+  intros Hm Hk s Hs. unfold bind. specialize (Hm s Hs). destruct (m s) as [a s'|e s']; [|exact Hm]. exact (Hk s' Hm).
+Qed.
+
+Lemma presH_getk p (k : mstate -> M hdr) : (forall s0, presH p (k s0)) -> presH p (bind get k).
+Proof. intros H s Hs. unfold bind, get. apply H; auto. Qed.
+
 Ltac pv := first [ apply pres_view; intros; reflexivity
                  | apply pres_set_view; intros; reflexivity ].
 
 Section WithRec.
 Variable rec : hdr -> payload -> M unit.
-Hypothesis Hrec : forall h p, pres I (rec h p).
+Hypothesis Hrec : forall h p, sized h p -> pres I (rec h p).
 
 Lemma o_mlog lvl : pres I (mlog_with cfg rec lvl).
 Proof.
   intros s Hs. unfold mlog_with. destruct ((loglevel cfg <=? lvl) && rtma_log s); [|exact Hs].
-  specialize (Hrec (mgr_hdr (log_type lvl) SZ_RTMA_LOG 0) (PLog lvl) s Hs).
+  specialize (Hrec (mgr_hdr (log_type lvl) SZ_RTMA_LOG 0) (PLog lvl) eq_refl s Hs).
   destruct (rec (mgr_hdr (log_type lvl) SZ_RTMA_LOG 0) (PLog lvl) s) as [u s'|e s']; [exact Hrec|].
   destruct e; try exact Hrec; (eapply Hview; [|exact Hrec]; reflexivity).
 Qed.
 
-Lemma o_send_mgr t sz pl : pres I (send_mgr_with rec t sz pl).
-Proof. apply Hrec. Qed.
+Lemma o_send_mgr t sz pl : pay_size pl = sz -> pres I (send_mgr_with rec t sz pl).
+Proof. intros H. apply Hrec. exact H. Qed.
 
 Lemma o_send_failed c hh : pres I (send_failed_with rec c hh).
 Proof.
-  unfold send_failed_with. destruct (zmem _ _); [apply pres_ret|]. apply pres_getk. intros s0. apply o_send_mgr.
+  unfold send_failed_with. destruct (zmem _ _); [apply pres_ret|]. apply pres_getk. intros s0. apply o_send_mgr. reflexivity.
 Qed.
 
 Lemma o_remove_module c : pres I (remove_module_with cfg rec c).
@@ -70,7 +119,7 @@ Proof.
   destruct (negb (m_reg (find_mod c (mods s0)))); [apply pres_ret|].
   apply pres_bind; [pv|]. intros _. apply pres_bind; [pv|]. intros _.
   apply pres_bind; [apply Hclose|]. intros _. apply pres_bind; [apply o_mlog|]. intros _.
-  apply pres_getk. intros s1. apply pres_bind; [apply o_send_mgr|]. intros _.
+  apply pres_getk. intros s1. apply pres_bind; [apply o_send_mgr; reflexivity|]. intros _.
   apply pres_getk. intros s2. destruct (m_reg _); [pv|apply pres_crash].
 Qed.
 
@@ -80,70 +129,79 @@ Proof.
   apply pres_bind; [apply o_mlog|]. intros _. apply o_send_failed.
 Qed.
 
-Lemma o_send_checked c hh p : pres I (send_checked_with cfg rec c hh p).
+Lemma o_send_checked c hh p : sized hh p -> presH p (send_checked_with cfg rec c hh p).
 Proof.
-  unfold send_checked_with. apply pres_bind; [apply Hsend|]. intros [r h']. destruct r; simpl.
-  - apply pres_bind; [pv|]. intros _. apply pres_ret.
-  - apply pres_bind; [apply o_on_conn_err|]. intros _. apply pres_ret.
-  - apply pres_bind; [apply o_on_conn_err|]. intros _. apply pres_ret.
+  intros Hz s Hs. unfold send_checked_with. unfold bind at 1.
+  pose proof (Hsend c hh p Hz s Hs) as H1. pose proof (mod_send_hdr c hh p s) as H2.
+  destruct (mod_send c hh p s) as [[r h'] s1|e s1]; [|exact H1]. simpl in H2.
+  assert (Hz' : sized h' p) by (unfold sized in *; congruence).
+  destruct r; cbn [fst snd].
+  - assert (Hd : pres I (set_mod c (fun m => mm_drops m 0))) by pv.
+    exact (presH_seq p _ _ Hd (presH_ret p h' Hz') s1 H1).
+  - exact (presH_seq p _ _ (o_on_conn_err c h') (presH_ret p h' Hz') s1 H1).
+  - exact (presH_seq p _ _ (o_on_conn_err c h') (presH_ret p h' Hz') s1 H1).
 Qed.
 
-Lemma o_deliver p hh c : pres I (deliver_with cfg rec p hh c).
+Lemma presH_crash p e : presH p (@crash hdr e).
+Proof. intros s Hs. exact Hs. Qed.
+
+Lemma o_deliver p hh c : sized hh p -> presH p (deliver_with cfg rec p hh c).
 Proof.
-  unfold deliver_with. apply pres_getk. intros s0.
-  destruct (negb _); [apply pres_ret|]. destruct (zmem c (wl s0)).
-  - destruct (dest_filter _ _ _); [apply o_send_checked|apply pres_ret].
-  - destruct (m_logger _); [destruct (m_closed _); [apply pres_crash|apply o_send_checked]|].
-    apply pres_bind; [pv|]. intros _. apply pres_bind; [apply o_send_failed|]. intros _. apply pres_ret.
+  intros Hz. unfold deliver_with. apply presH_getk. intros s0.
+  destruct (negb _); [apply presH_ret; exact Hz|]. destruct (zmem c (wl s0)).
+  - destruct (dest_filter _ _ _); [apply o_send_checked; exact Hz|apply presH_ret; exact Hz].
+  - destruct (m_logger _); [destruct (m_closed _); [apply presH_crash|apply o_send_checked; exact Hz]|].
+    apply presH_seq; [pv|]. apply presH_seq; [apply o_send_failed|]. apply presH_ret; exact Hz.
 Qed.
 
-Lemma o_deliver_loop p : forall l hh, pres I (deliver_loop cfg rec p hh l).
+Lemma o_deliver_loop p : forall l hh, sized hh p -> pres I (deliver_loop cfg rec p hh l).
 Proof.
-  induction l as [|c r IH]; intros hh; simpl; [apply pres_ret|].
-  apply pres_bind; [apply o_deliver|]. intros hh'. apply IH.
+  induction l as [|c r IH]; intros hh Hz; simpl; [apply pres_ret|].
+  apply (presH_bind p); [apply o_deliver; exact Hz|]. intros hh' Hz'. apply IH. exact Hz'.
 Qed.
 
 Lemma o_count_msg t : pres I (count_msg cfg t).
 Proof. unfold count_msg. apply pres_getk. intros s0. destruct (negb _); [pv|apply pres_ret]. Qed.
 
-Lemma o_forward_body h p : pres I (forward_body cfg rec h p).
+Lemma o_forward_body h p : sized h p -> pres I (forward_body cfg rec h p).
 Proof.
-  unfold forward_body. apply pres_bind; [apply o_count_msg|]. intros _.
+  intros Hz. unfold forward_body. apply pres_bind; [apply o_count_msg|]. intros _.
   destruct (bad_dest_mod _); [apply o_mlog|]. destruct (bad_dest_host _); [apply o_mlog|].
-  apply pres_getk. intros s0. apply o_deliver_loop.
+  apply pres_getk. intros s0. apply o_deliver_loop. exact Hz.
 Qed.
 
 End WithRec.
 
-Lemma o_forward : forall fuel h p, pres I (forward cfg fuel h p).
+Lemma o_forward : forall fuel h p, sized h p -> pres I (forward cfg fuel h p).
 Proof.
-  induction fuel as [|k IH]; intros h p; simpl; [apply pres_crash|]. apply o_forward_body. exact IH.
+  induction fuel as [|k IH]; intros h p Hz; simpl; [apply pres_crash|]. apply o_forward_body; [exact IH|exact Hz].
 Qed.
 
 Notation fwd := (fwd cfg FUEL).
-Lemma o_fwd h p : pres I (fwd h p). Proof. apply o_forward. Qed.
-Lemma ot_mlog lvl : pres I (mlog cfg FUEL lvl). Proof. apply o_mlog. intros; apply o_fwd. Qed.
-Lemma ot_send_mgr t sz pl : pres I (send_mgr cfg FUEL t sz pl). Proof. apply o_send_mgr. intros; apply o_fwd. Qed.
-Lemma ot_send_failed c hh : pres I (send_failed cfg FUEL c hh). Proof. apply o_send_failed. intros; apply o_fwd. Qed.
-Lemma ot_remove_module c : pres I (remove_module cfg FUEL c). Proof. apply o_remove_module. intros; apply o_fwd. Qed.
-Lemma ot_send_checked c hh p : pres I (send_checked cfg FUEL c hh p). Proof. apply o_send_checked. intros; apply o_fwd. Qed.
+Lemma o_fwd h p : sized h p -> pres I (fwd h p). Proof. apply o_forward. Qed.
+Lemma ot_mlog lvl : pres I (mlog cfg FUEL lvl). Proof. apply o_mlog. intros; apply o_fwd; assumption. Qed.
+Lemma ot_send_mgr t sz pl : pay_size pl = sz -> pres I (send_mgr cfg FUEL t sz pl). Proof. intros H. apply o_send_mgr; [intros; apply o_fwd; assumption|exact H]. Qed.
+Lemma ot_send_failed c hh : pres I (send_failed cfg FUEL c hh). Proof. apply o_send_failed. intros; apply o_fwd; assumption. Qed.
+Lemma ot_remove_module c : pres I (remove_module cfg FUEL c). Proof. apply o_remove_module. intros; apply o_fwd; assumption. Qed.
+Lemma ot_send_checked c hh p : sized hh p -> presH p (send_checked cfg FUEL c hh p). Proof. apply o_send_checked. intros; apply o_fwd; assumption. Qed.
 
 Lemma ot_send_client_info c : pres I (send_client_info cfg FUEL c).
 Proof.
   unfold send_client_info. apply pres_bind; [apply ot_mlog|]. intros _. apply pres_getk. intros s0. apply ot_send_mgr.
+  unfold client_payload. reflexivity.
 Qed.
 
-Lemma ot_loggers_loop : forall l hh p, pres I (loggers_loop cfg FUEL hh p l).
+Lemma ot_loggers_loop : forall l hh p, sized hh p -> pres I (loggers_loop cfg FUEL hh p l).
 Proof.
-  induction l as [|c r IH]; intros hh p; simpl; [apply pres_ret|].
-  apply pres_getk. intros s0. destruct (negb _); [apply IH|].
-  destruct (_ && _); [apply pres_crash|]. apply pres_bind; [apply ot_send_checked|]. intros hh'. apply IH.
+  induction l as [|c r IH]; intros hh p Hz; simpl; [apply pres_ret|].
+  apply pres_getk. intros s0. destruct (negb _); [apply IH; exact Hz|].
+  destruct (_ && _); [apply pres_crash|]. apply (presH_bind p); [apply ot_send_checked; exact Hz|]. intros hh' Hz'. apply IH. exact Hz'.
 Qed.
 
 Lemma ot_send_ack c : pres I (send_ack cfg FUEL c).
 Proof.
-  unfold send_ack. apply pres_getk. intros s0. apply pres_bind; [apply ot_send_checked|]. intros hh'.
-  unfold send_to_loggers. apply pres_getk. intros s1. apply ot_loggers_loop.
+  unfold send_ack. apply pres_getk. intros s0. apply (presH_bind (PData 0 0)); [apply ot_send_checked; reflexivity|]. intros hh' Hz'.
+  unfold send_to_loggers. apply pres_getk. intros s1. apply ot_loggers_loop. exact Hz'.
 Qed.
 
 Lemma ot_assign : pres I (assign_module_id cfg FUEL).
@@ -216,7 +274,7 @@ Proof.
     destruct ascii; [|apply ot_mlog]. apply pres_bind; [pv|]. intros _. apply ot_mlog. }
   destruct (_ =? MT_MODULE_READY).
   { apply pres_bind; [|intros _; apply ot_send_client_info]. destruct ip; try apply pres_ret. pv. }
-  apply pres_bind; [apply ot_mlog|]. intros _. apply o_fwd.
+  apply pres_bind; [apply ot_mlog|]. intros _. apply o_fwd. destruct ip; reflexivity.
 Qed.
 
 Lemma ot_service c ib : pres I (service cfg FUEL c ib).
@@ -235,7 +293,7 @@ Proof.
   unfold send_timing_message. apply pres_getk. intros s0.
   destruct (timing_writes _); [|apply pres_crash]. apply pres_bind; [pv|]. intros _.
   destruct (pid_writes _); [|apply pres_crash]. cbv zeta.
-  apply pres_bind; [pv|]. intros _. apply pres_bind; [apply ot_send_mgr|]. intros _. pv.
+  apply pres_bind; [pv|]. intros _. apply pres_bind; [apply ot_send_mgr; reflexivity|]. intros _. pv.
 Qed.
 
 Lemma ot_send_traffic now : pres I (send_traffic cfg FUEL now).
@@ -243,7 +301,7 @@ Proof.
   unfold send_traffic. apply pres_getk. intros s0. cbv zeta.
   apply pres_bind; [pv|]. intros _. apply pres_bind; [apply ot_mlog|]. intros _.
   apply pres_getk. intros s1.
-  apply pres_bind; [apply pres_mapM; intros [[sub ty] ct]; apply ot_send_mgr|]. intros _.
+  apply pres_bind; [apply pres_mapM; intros [[sub ty] ct]; apply ot_send_mgr; reflexivity|]. intros _.
   apply pres_bind; [pv|]. intros _. apply pres_bind; [pv|]. intros _. pv.
 Qed.
 
@@ -259,7 +317,7 @@ Lemma ot_send_active now : pres I (send_active_clients cfg FUEL now).
 Proof.
   unfold send_active_clients. apply pres_bind; [apply ot_mlog|]. intros _.
   apply pres_getk. intros s0. apply pres_bind; [apply ot_active_loop|]. intros entries.
-  apply pres_getk. intros s1. apply pres_bind; [apply ot_send_mgr|]. intros _. pv.
+  apply pres_getk. intros s1. apply pres_bind; [apply ot_send_mgr; reflexivity|]. intros _. pv.
 Qed.
 
 Lemma ot_periodic now : pres I (periodic cfg FUEL now).
